@@ -201,6 +201,14 @@ impl HandshakeService {
     }
 }
 
+#[cfg(feature = "verif")]
+impl HandshakeService {
+    /// Verification hook: is a substream of `peer` with `direction` being negotiated?
+    pub(crate) fn verif_contains(&self, peer: &PeerId, direction: Direction) -> bool {
+        self.substreams.contains_key(&(*peer, direction))
+    }
+}
+
 impl Stream for HandshakeService {
     type Item = (PeerId, HandshakeEvent);
 
